@@ -76,9 +76,9 @@ def _mk_item(d: Any) -> dict[str, Any]:
 
 
 @st.composite
-def data_strategy(draw: Any) -> dict[str, Any]:
+def data_strategy(draw: Any, allow_empty: bool = False) -> dict[str, Any]:
     d = draw
-    if d(st.integers(0, 29)) == 0:
+    if allow_empty and d(st.integers(0, 29)) == 0:
         # no data at all: every global lookup is undefined, namespaces start out empty
         return {}
     data: dict[str, Any] = {
